@@ -166,6 +166,8 @@ REGRESSION_PROGRAMS = [
     # a replacement field with its own format spec inside a format spec, followed by another field or text (the nested spec
     # is finished by its closing brace)
     'f"{x:{y:1}{z}}"\n', 'f"{x:{y:{z}}{w}}"\n', "f'{x:{y:>{w}}{z!r:{q}}}'\n", 'f"{a:{b:{c}}d{e}f}"\n', "x = f'''{x:{y:1}\n{z}}'''\n",
+    # star import from __future__ (the future-import rule unpacked one-element paths)
+    "from __future__ import *\n", "x = 1\nfrom __future__ import *\n",
     # a form feed in the indentation of a line (CPython restarts the column count there; open known finding of C10)
     "if x:\n    y\n\x0c    z\n",
     "if a:\n    b\n  $\nc\n", "  $", "if a:\n  ?\nb\n", "if a:\n    $\n    b\n$\n", "class C:\n  def f():\n    x\n  `\n",
